@@ -125,6 +125,88 @@ def judge_demorgan(acc, fxm, a, b, part):
     acc.outcome('demorgan_ok')
 
 
+def judge_history(acc, fxm, grow, part):
+    """~x at one word length, then the object (or a like= derivative) is widened, then ~ & | ^ again: results must be those of the new width"""
+    n = fxm.n_word
+    f2 = Fmt(fxm.signed, n + grow, fxm.n_frac)
+    for via in ('resize', 'like=', 'deepcopy_resize'):
+        for c in sorted({fxm.lo, fxm.hi, 1, -1 if fxm.signed else 2}):
+            if not (fxm.lo <= c <= fxm.hi):
+                continue
+            case = {'part': part, 'history': True, 'fx': list(fxm), 'grow': grow, 'via': via, 'code': c}
+            acc.evaluations += 4
+            acc.transitions += 8
+            acc.nontrivial += 1
+            try:
+                x = mkx(fxm, c)
+                z0 = ~x
+                m0 = x & 1
+                if via == 'resize':
+                    x.resize(n_word=f2.n_word)
+                    y = x
+                elif via == 'like=':
+                    y = Fxp(x, like=x, n_word=f2.n_word)
+                else:
+                    y = x.deepcopy()
+                    y.resize(n_word=f2.n_word)
+                got = (codes(~y), codes(y & 5), codes(y | 5), codes(y ^ 5), fmt_of(~y))
+            except Exception as e:
+                acc.violation('exception', case, '%s widened by %d via %s raised %r' % (fxm.dtype, grow, via, e), {'part': part, 'aspect': 'history'})
+                continue
+            n2 = f2.n_word
+            pc = pat(c, n2)
+            exp = ([unpat(pc ^ ((1 << n2) - 1), f2)], [unpat(pc & 5, f2)], [unpat(pc | 5 % (1 << n2), f2)], [unpat(pc ^ 5 % (1 << n2), f2)], f2)
+            if got != exp:
+                acc.violation('history', case, '%s code %d: ~x, then widened to %d bits via %s: (~, &5, |5, ^5) = %s, expected %s'
+                              % (fxm.dtype, c, n2, via, got[:4], exp[:4]), {'part': part, 'aspect': 'history'})
+            else:
+                acc.outcome('history_ok')
+
+
+def judge_2d(acc, fxm, part):
+    """2-d operands in C order and as transposed (not C-contiguous) views: element (i, j) must combine the codes at (i, j)"""
+    cs = list(range(fxm.lo, fxm.hi + 1))[:12]
+    while len(cs) < 6:
+        cs = cs + cs
+    cs = cs[:6]
+    n = fxm.n_word
+    for layout in ('C', 'T', 'F', 'rev'):
+        case = {'part': part, 'twod': True, 'fx': list(fxm), 'layout': layout, 'codes': cs}
+        acc.evaluations += 4
+        acc.transitions += 5
+        acc.nontrivial += 1
+        try:
+            base = np.array(cs, dtype=np.int64)
+            if layout == 'C':
+                x = Fxp(base.reshape(2, 3), fxm.signed, n, fxm.n_frac, raw=True)
+                logical = base.reshape(2, 3)
+            elif layout == 'T':
+                x = Fxp(base.reshape(3, 2), fxm.signed, n, fxm.n_frac, raw=True).T
+                logical = base.reshape(3, 2).T
+            elif layout == 'F':
+                x = Fxp(np.asfortranarray(base.reshape(2, 3)), fxm.signed, n, fxm.n_frac, raw=True)
+                logical = base.reshape(2, 3)
+            else:
+                x = Fxp(base.reshape(2, 3), fxm.signed, n, fxm.n_frac, raw=True)[::-1]
+                logical = base.reshape(2, 3)[::-1]
+            lg = [int(v) for v in logical.ravel().tolist()]
+            if codes(x) != lg:
+                raise AssertionError('layout construction')
+            y = Fxp(unpat(pat(3, n), fxm), fxm.signed, n, 0, raw=True)
+            got = (codes(~x), codes(x & y), codes(x | 5), codes(6 ^ x))
+        except Exception as e:
+            acc.violation('exception', case, '%s 2-d layout %s raised %r' % (fxm.dtype, layout, e), {'part': part, 'aspect': '2d'})
+            continue
+        mask = (1 << n) - 1
+        exp = ([unpat(pat(c, n) ^ mask, fxm) for c in lg], [unpat(pat(c, n) & pat(3, n), fxm) for c in lg],
+               [unpat(pat(c, n) | pat(5, n), fxm) for c in lg], [unpat(pat(c, n) ^ pat(6, n), fxm) for c in lg])
+        if got != exp:
+            acc.violation('layout', case, '%s 2-d operand in layout %s: (~x, x&y, x|5, 6^x) = %s, expected %s' % (fxm.dtype, layout, got, exp),
+                          {'part': part, 'aspect': '2d'})
+        else:
+            acc.outcome('layout_ok')
+
+
 def judge_reject(acc, nx, ny, sx, sy, op, part):
     case = {'part': part, 'nx': nx, 'ny': ny, 'sx': sx, 'sy': sy, 'op': op, 'reject': True}
     acc.evaluations += 1
@@ -155,6 +237,8 @@ def bounds(tier, seed):
                            'and either signedness (n_frac(y) in {0, n_word}) x n_frac(x) in 0..n_word x {&,|,^}; int masks on either side; ~ with '
                            'involution and -x-LSB; De Morgan on all code pairs (n_word<=%d)' % (k, 3 if tier == 'quick' else 4, 3 if tier == 'quick' else 4),
             'wide': 'n_word in %s: boundary + walking-bit + seed codes x 8 y codes / masks' % (WIDE_WORDS,),
+            'histories': '~x, then the object / a like= derivative / a deep copy widened by 1, 2, 5 bits, then ~ & | ^ again; 2-d operands in C, transposed, '
+                         'Fortran and reversed-view layouts',
             'rejection': 'all ordered pairs of different word lengths 1..8 x signedness mixes x {&,|,^}', 'seed': seed}
 
 
@@ -205,6 +289,10 @@ def run_shard(sh):
                 for a in xs:
                     for b in xs:
                         judge_demorgan(acc, fxm, a, b, 'S')
+            if nw >= 3 and nf in (0, nw):
+                for grow in (1, 2, 5):
+                    judge_history(acc, fxm, grow, 'S')
+                judge_2d(acc, fxm, 'S')
     elif sh['part'] == 'W':
         nw = sh['nw']
         for nf in sorted({0, nw // 2, nw}):
@@ -245,6 +333,12 @@ def run_shard(sh):
 def replay(case):
     reset_class_state()
     acc = Acc()
+    if case.get('history'):
+        judge_history(acc, Fmt(*case['fx']), case['grow'], case['part'])
+        return [v for v in acc.violations if v['case'].get('via') == case['via'] and v['case'].get('code') == case['code']]
+    if case.get('twod'):
+        judge_2d(acc, Fmt(*case['fx']), case['part'])
+        return [v for v in acc.violations if v['case'].get('layout') == case['layout']]
     if case.get('reject'):
         judge_reject(acc, case['nx'], case['ny'], case['sx'], case['sy'], case['op'], case['part'])
     elif case.get('demorgan'):
